@@ -22,5 +22,6 @@ SPEC = docsweep.Spec(
     oracle=oracles2.o_markers,
     nontrivial=lambda fs: "hyperlink" in fs and bool(fs & {"note_ref", "footnotes_part", "endnotes_part"}) or "corpus" in fs,
     n_quick=120, n_thorough=4000,
+    extra_corr=docsweep.utilities_corr("links"),
 )
 run, search, replay = make(SPEC)
